@@ -15,7 +15,7 @@ import ast
 from ..engine import rule
 from ..model import Undecided
 from ..cfg import dotted, call_name, is_call, simple_name, unparse, const_value, contains, enclosing
-from ..flow import Defs, depends, try_const
+from ..flow import Canon, Defs, depends, try_const
 from ..decide import table, ret_kind
 from ..util import keyword, returns_of, calls_in, inside, order_key
 
@@ -388,3 +388,56 @@ def c11f(ctx):
     ok = any(isinstance(s, ast.If) and 'self.level_progresses is None' in unparse(s.test) for s in cp.walk())
     ctx.check(ok, 'SeedProgress.current_progress_identifier:none-keeps-old', 'before the first step_down the old identifier is kept', cp,
               fail='current_progress_identifier does not keep the old identifier while the walk has not started')
+
+
+@rule('C11.g', floor=1)
+def c11g(ctx):
+    """"nothing else": the coverage test and the recursion use the *unbuffered* rectangle of a meta tile -- the walker builds its own
+    MetaGrid with meta_buffer=0 (the tile manager's grid carries the request buffer, which would make neighbours of the coverage
+    count as intersecting)"""
+    fn = ctx.fn('mapproxy/seed/seeder.py' + ':TileWalker.__init__')
+    cf = Canon(fn)
+    sets = [s for s in fn.walk() if isinstance(s, ast.Assign) and unparse(s.targets[0]) == 'self.grid']
+    ok = bool(sets)
+    for s in sets:
+        v = cf.expr(s.value)
+        buf = keyword(v, 'meta_buffer', 2) if isinstance(v, ast.Call) else None
+        ok = ok and is_call(v, 'MetaGrid') and buf is not None and const_value(buf, 1) == 0
+    ctx.check(ok, 'TileWalker.__init__:unbuffered-grid', 'self.grid = MetaGrid(<grid>, meta_size, meta_buffer=0)', fn,
+              fail='the walker does not use an unbuffered meta grid: meta tiles outside the coverage but within the meta buffer of it are seeded')
+    fs = ctx.fn('mapproxy/seed/seeder.py' + ':TileWalker._filter_subtiles')
+    ok = any(isinstance(x, ast.Attribute) and x.attr == 'bbox' and is_call(x.value, 'self.grid.meta_tile') for x in fs.walk())
+    ctx.check(ok, 'TileWalker._filter_subtiles:bbox-of-walker-grid', 'the rectangle tested against the coverage is self.grid.meta_tile(subtile).bbox', fs)
+
+
+@rule('C11.h', floor=1)
+def c11h(ctx):
+    """the "whole sub tree is inside the coverage" shortcut is decided per sub tile: inside the loop over the sub tiles the flag
+    handed to the recursion is (re)assigned from this sub tile's intersection on every path, and it is True only for CONTAINS
+    (a flag that stays set for later siblings seeds / removes their whole pyramid without coverage test)"""
+    fn = ctx.fn(S + ':TileWalker._walk')
+    g = fn.cfg
+    rec = [(n, x) for n, x in g.find(lambda x: is_call(x, 'self._walk'))]
+    if not rec:
+        raise Undecided('TileWalker._walk: recursive call not found')
+    for n, x in rec:
+        arg = keyword(x, 'all_subtiles', 3)
+        lp = enclosing(x, ast.For)
+        ok = isinstance(arg, ast.Name) and lp is not None
+        if ok:
+            head = g.node_of.get(id(lp))
+            sets = g.find_stmts(lambda s: isinstance(s, ast.Assign) and unparse(s.targets[0]) == arg.id and inside(s, lp))
+            ok = head is not None and bool(sets) and not g.reaches_avoiding(head, n, avoid=set(sets))
+            # value: True exactly for CONTAINS
+            for s in sets:
+                v = g.stmt[s].value
+                if isinstance(v, ast.Constant) and v.value is True:
+                    ok = ok and g.guarded(s, lambda at: at.op == '==' and 'CONTAINS' in at.text and 'intersection' in at.text, True)
+                elif isinstance(v, ast.Constant) and v.value is False:
+                    ok = ok and g.guarded(s, lambda at: at.op == '==' and 'CONTAINS' in at.text and 'intersection' in at.text, False)
+                else:
+                    ok = ok and isinstance(v, ast.Compare) and 'CONTAINS' in unparse(v) and isinstance(v.ops[0], (ast.Eq, ast.Is))
+        ctx.check(ok, 'TileWalker._walk:subtree-flag-per-subtile', 'all_subtiles is assigned from this sub tile\'s intersection (== CONTAINS) on every path '
+                  'to the recursive call', fn, x,
+                  fail='the all_subtiles flag of an earlier sibling can reach the recursion for this sub tile: a partially covered sub tree is '
+                       'walked without coverage test')
